@@ -101,6 +101,10 @@ func (p *Processor[K, T]) Close() error {
 		return nil
 	}
 
+	// Another call is closing the processor: do not return before it has sent the stop signal, after which no
+	// callback is started any more
+	<-p.stopCh
+
 	return nil
 }
 
